@@ -81,11 +81,22 @@ def main():
             res["builds"] = rc == 0
             rc2, out2 = sh("git diff --name-only", cwd=wt)
             pkgs = sorted({"./" + os.path.dirname(f) for f in out2.split() if f.endswith(".go")})
-            rc, out = sh("go test -count=1 -vet=off %s" % " ".join(pkgs), cwd=wt) if pkgs else (0, "")
             res["touched_packages"] = pkgs
-            res["existing_tests_pass"] = rc == 0
-            if rc != 0:
-                res["existing_tests_tail"] = out[-800:]
+            def failing(tree):
+                rc, out = sh("go test -count=1 -vet=off %s" % " ".join(pkgs), cwd=tree) if pkgs else (0, "")
+                return {l.split()[2] for l in out.splitlines() if l.startswith("--- FAIL:")} | \
+                       {"BUILD:" + l for l in out.splitlines() if "[build failed]" in l}
+            # pre-existing failures (root-only permission tests etc.) are measured on a pristine copy
+            pristine = wt + "-pristine"
+            sh("git -C /repo worktree add -q --detach %s" % pristine)
+            try:
+                base_fail = failing(pristine)
+            finally:
+                sh("git -C /repo worktree remove --force %s" % pristine)
+            new_fail = failing(wt) - base_fail
+            res["preexisting_failures"] = sorted(base_fail)
+            res["new_failures"] = sorted(new_fail)
+            res["existing_tests_pass"] = not new_fail
             put_demo()
             rc, out = sh(demo_cmd, cwd=wt)
             res["demo_on_patched"] = "fails (as required)" if rc != 0 else "PASSES (change not confirmed)"
